@@ -58,7 +58,13 @@ func idOf(b []byte) string {
 	return string(b[i+4 : i+j])
 }
 func (g *gateAppender) Append(e *log.Event) { g.pass("e" + idOf(g.layout.ToBytes(e))) }
-func (g *gateAppender) Write(b []byte)      { g.pass("w" + idOf(b)) }
+func (g *gateAppender) Write(b []byte) {
+	if len(b) > 0 && b[0] == '{' { // an event formatted by the logger's own layout
+		g.pass("e" + idOf(b))
+		return
+	}
+	g.pass("w" + idOf(b))
+}
 func (g *gateAppender) snapshot() []string {
 	g.mu.Lock()
 	defer g.mu.Unlock()
@@ -84,13 +90,21 @@ func parsePolicy(s string) log.BufferFullPolicy {
 
 var allLevels = log.LevelRange{MinLevel: log.InfoLevel, MaxLevel: log.MaxLevel}
 
+// A policy written "<policy>+L" gives the logger its own layout and the appender reference the range [INFO, MAX): the worker
+// then formats the event itself and hands bytes to the reference's level filter (the other delivery path of the worker).
 func newAsync(cap int, pol string, g log.Appender) *log.AsyncLogger {
-	return &log.AsyncLogger{
+	pol, withLayout := strings.CutSuffix(pol, "+L")
+	l := &log.AsyncLogger{
 		LoggerBase:       log.LoggerBase{Name: "lg", Level: allLevels},
 		AppenderRefs:     log.AppenderRefs{AppenderRefs: []*log.AppenderRef{{Appender: g, Level: log.LevelRange{MinLevel: log.NoneLevel, MaxLevel: log.MaxLevel}}}},
 		BufferSize:       cap,
 		BufferFullPolicy: parsePolicy(pol),
 	}
+	if withLayout {
+		l.Layout = &log.JSONLayout{}
+		l.AppenderRefs.AppenderRefs[0].Level = log.LevelRange{MinLevel: log.InfoLevel, MaxLevel: log.MaxLevel}
+	}
+	return l
 }
 
 func submitTo(l log.Logger, kind byte, id string) {
